@@ -107,6 +107,17 @@ theorem fock_trace_local2 {K : Type} [CommSemiring K] (D : Nat) (mat matc : Nat 
       ∑ v ∈ Finset.range D ×ˢ Finset.range D, ρ (diag2 idx m1 m2 v.1 v.2) :=
   trace_conj2 D mat matc m1 m2 h12 hiso ρ idx
 
+/-- **Fock locality, channels**: a Kraus set with `Σ_k K_k† K_k = 1` leaves the state traced over its
+target unchanged (`_apply_channel`: loss) — any number of Kraus operators, any position -/
+theorem fock_channel_local {K : Type} [CommSemiring K] (D : Nat) (ks : List ((Nat → Nat → K) × (Nat → Nat → K)))
+    (m : Nat)
+    (hcomplete : ∀ a b, a < D → b < D →
+      (ks.map fun k => ∑ v ∈ Finset.range D, k.1 v a * k.2 v b).sum = if a = b then 1 else 0)
+    (ρ : Tens K) (idx : Idx) :
+    (∑ v ∈ Finset.range D, applyChannel1 D ks m ρ (upd (upd idx (2 * m) v) (2 * m + 1) v)) =
+      ∑ v ∈ Finset.range D, ρ (upd (upd idx (2 * m) v) (2 * m + 1) v) :=
+  trace_channel1 D ks m hcomplete ρ idx
+
 /-- **`prepare_multimode`, whole register**: axis `a` of the given ket ends up on mode `modes[a]` for
 every order of the listed modes (`axisMap modes a = modes[a]`) -/
 theorem fock_prepare_all_order {K : Type} (n : Nat) (modes : List Nat) (hnd : modes.Nodup)
